@@ -152,8 +152,12 @@ def gen_block(rng, depth, maxdepth, plain=False, first_in_item=False):
                 # a tight item may also end with a block that can interrupt its paragraph: fenced code or a quote
                 if rng.random() < 0.5:
                     blocks.append(("fence", rng.choice(["", "py"]), [gen_words(rng) for _ in range(rng.randint(0, 2))]))
-                else:
+                elif rng.random() < 0.6:
                     blocks.append(("quote", [("para", gen_inlines(rng, plain=plain, allow_breaks=False))]))
+                else:
+                    # … a quote that holds a list and then a paragraph (the blank line after the inner list must survive)
+                    inner = ("list", False, None, True, [[("para", gen_inlines(rng, plain=plain, allow_breaks=False))] for _ in range(rng.randint(1, 2))])
+                    blocks.append(("quote", [inner, ("para", gen_inlines(rng, plain=plain, allow_breaks=False))]))
         else:
             for _ in range(rng.randint(0, 2)):
                 push_block(rng, blocks, gen_block(rng, depth + 1, maxdepth, plain), plain)
